@@ -66,7 +66,8 @@ def _context(p, st, fn):
             break
         if isinstance(anc, ast.If):
             in_body = any(child is x for x in anc.body)
-            ctx_.append((au.U(anc.test), in_body))
+            test, pol = au.strip_not(anc.test)       # `if not c: A else: B` is `if c: B else: A`
+            ctx_.append((au.U(test), in_body == pol))
         child = anc
     return tuple(reversed(ctx_))
 
